@@ -21,9 +21,13 @@ class BuildError(Exception):
 def repo_binary(release=False):
     """cargo build of /repo's current working tree with the hook cfg; returns the path of the binary."""
     os.makedirs(CACHE, exist_ok=True)
-    tgt = os.path.join(CACHE, 'target-hook')
+    # one target directory per source tree: cargo keeps the uplifted target/debug/<binary> of whichever package it built last, so two trees sharing a target directory
+    # (a scratch worktree used through VERIF_REPO, then /repo again) would leave a stale binary under the shared name
+    tgt = os.path.join(CACHE, 'target-hook' if REPO == '/repo' else 'target-hook-' + hashlib.sha1(REPO.encode()).hexdigest()[:8])
     env = dict(ENV, RUSTFLAGS='--cfg ' + GUARD, CARGO_TARGET_DIR=tgt)
     cmd = ['cargo', 'build', '--offline', '--quiet'] + (['--release'] if release else [])
+    if os.environ.get('VERIF_COVERAGE'):      # tools/coverage.sh: source-based coverage of /repo/src under the checks (nightly toolchain has llvm-cov / llvm-profdata)
+        tgt = os.path.join(CACHE, 'target-cov'); env = dict(ENV, RUSTFLAGS='--cfg ' + GUARD + ' -C instrument-coverage', CARGO_TARGET_DIR=tgt); cmd = ['cargo', '+nightly'] + cmd[1:]
     global HOOKS_OK, HOOKS_ERROR
     try:
         sh(cmd, cwd=REPO, env=env, timeout=1800)
@@ -31,7 +35,7 @@ def repo_binary(release=False):
         # The guarded hook code (src/verif_hooks.rs and the cfg'd accessors) no longer compiles against the tree - e.g. an internal function it calls was renamed.
         # That is not a property violation: fall back to the plain build (guard off); the in-process correspondences are skipped and reported, the black-box ones remain.
         HOOKS_OK = False; HOOKS_ERROR = str(e)[-1500:]
-        tgt = os.path.join(CACHE, 'target-plain')
+        tgt = tgt.replace('target-hook', 'target-plain')
         sh(cmd, cwd=REPO, env=dict(ENV, CARGO_TARGET_DIR=tgt), timeout=1800)
     return os.path.join(tgt, 'release' if release else 'debug', 'rusty-blockparser')
 HOOKS_OK = True; HOOKS_ERROR = ''
